@@ -170,8 +170,11 @@ CHECKS = {
             "element, None iff the set is empty; predecessors are refused iff the language is infinite (isfinite model proved exact, no "
             "other error possible); without max_length the state-count bound loses no word of a finite language. Additionally a mirror model "
             "of the explicit stack machine of DFA.successors (both directions, with the row-8 repair) is proved to generate exactly that "
-            "list whenever it returns (partial correctness, theorems ..._partial; termination within the driver's budget is not proved, "
-            "an Err Fuel answer fails the check). The implementation's output (whole generated list, single-step result, exception "
+            "list (total correctness: for every fuel it returns nothing else, and - by a termination measure over the trie of words of "
+            "length <= max_length, resp. <= |Q| through co-accessibility for a finite language - it does return, without KeyError/"
+            "IndexError, within the budget (words_upto(|alphabet|, hi) + |start| + 1) * (|alphabet| + 2) + 1 the driver uses; "
+            "hypotheses: start over the alphabet, non-empty alphabet, max_length given whenever the language is infinite). "
+            "The implementation's output (whole generated list, single-step result, exception "
             "kind) is compared literally with both models on generated DFAs x keys x starts x windows x directions.",
             "Symbols are numbered by rank under the user's key (injective keys only). Open known findings: start string with a symbol "
             "outside the alphabet (KeyError), empty alphabet (IndexError).", "7/C14"),
